@@ -81,6 +81,7 @@ class P(vlib.Prop):
             "retry and scripted pusher outcomes (ok / transient / permanent / partial / interrupted by shutdown), then Shutdown. "
             "exporter (real requests): the same chain through the public NewTraces/NewMetrics/NewLogs with pdata payloads, mostly sending_queue::batch with a small max_size (merge + split, also inside a metric); "
             "a third of the queue configurations use block_on_overflow with producers whose context ends while they wait for room; what every Send returned is observed and compared; "
+            "helper processors are built with declared MutatesData true or false; half of the persistent-queue cases use the items sizer, most of them on a storage that refuses the best-effort queue-size snapshot writes; "
             "obsconsumer wrappers are created with 1-9 static attributes; "
             "Every case draws a tracer-provider mode (recording SDK spans / no-op provider / NeverSample / ParentBased(NeverSample)) and, for receiver and processor, a live or cancelled caller context. "
             "Every counter of the meter provider and the item attributes of the recorded spans are read back and compared name by name with the model's ledger; "
